@@ -11,6 +11,36 @@ sys.path.insert(0, HERE)
 
 # id -> (technique, level text, level note, design ref)
 CLAIMS = {
+    "C03": (
+        "extraction and cross-comparison of sibling tables: macro patterns / m_ops / c_ops / a_ops (constant-folded from result_macros.py) against the defop lambda lists, bodies and documentation of pyops.hy (own s-expression reader) and Python's fixed ast<->operator correspondence",
+        "Decides, exhaustively over the 28 shadowed operator macros and 13 augmented-assignment macros, agreement of arity intervals, operator identity, fold direction and start, nullary/unary special cases, documented aggregators, and that the #* fallback to hy.pyops is taken before pattern matching. Results on concrete operands and exception types are Python's.",
+        "Python's operator module functions are trusted to implement the operators of the same ast classes.",
+        "4/C03",
+    ),
+    "C04": (
+        "strategy-agreement and guard-coverage rules over compile_comprehension (tags handled by both strategies, every Result the native strategy reads is tested by the strategy condition), scope-registration rules, construction-time else placement",
+        "Decides the structural conditions behind 'same result from either strategy': all grammar tags handled, `do`/statements force the generator function, the strategy condition covers every Result whose expression the native strategy reads, gfor stays lazy, iteration variables (all names of a destructuring target) are registered so they cannot leak, leaked names are sorted and declared in the right kind of scope, and the else body is attached to the outermost loop at construction. Element values are not decided.",
+        "The function is long and several rules compare normalised sub-expressions of it.",
+        "4/C04",
+    ),
+    "C05": (
+        "def-use wiring analysis (reaching definitions) from the five lambda-list groups to the fields of ast.arguments, guard-precedes-construction rules, Lambda-vs-def condition, scope parameter registration",
+        "Decides that each group of the lambda list reaches exactly its field of ast.arguments (by tuple position), defaults are ordered positional-only then ordinary, only keyword-only defaults are None-padded, the three lambda-list errors precede construction, a Lambda is used only when nothing would be lost (annotations on all five groups and the return are considered), the last expression is returned unless the function is an async generator, yield marks the nearest Python function scope, call arguments keep encounter order, and function scopes define all five parameter kinds. Actual binding at call time is Python's.",
+        "The docstring clause is emergent from Python's own rule and not decided.",
+        "4/C05",
+    ),
+    "C06": (
+        "scope-routing rule (every binding construct tells the scope chain), ScopeLet rename/delegate/define shape, value-before-binding order in compile_let, enter/exit pairing and who-may-enter search",
+        "Decides the structural conditions for lexical scoping of let: all nine binding constructs are routed through the scope chain, ScopeLet renames bound names and delegates the rest, definitions drop shadowed bindings, values are compiled before their own binding is added, scopes are only entered by `with` and restore their parent, function scopes hand unbound names outwards and define all parameter kinds. Resolution on concrete nestings is not simulated.",
+        "",
+        "4/C06",
+    ),
+    "C07": (
+        "closure rule for OuterVar (single constructor, replaced on every route before the root node), wiring of visit_OuterVar, exception-conversion rule, scope registration",
+        "Decides that OuterVar never escapes (only compile_global_or_nonlocal builds it; hy_compile resolves every statement unconditionally before building the module; no other caller of HyASTCompiler.compile), that resolution walks outwards taking function-defined and let-bound names as Nonlocal (in declaration order) and module-defined names as Global with the documented fallback, that `global` is always Global, that use-before-declaration is raised and converted to a Hy syntax error, and that names declared nonlocal are not counted as defined by the declaring function.",
+        "",
+        "4/C07",
+    ),
     "C01": (
         "Result-flow placement analysis (reaching definitions + interprocedural summaries) against a reviewed table of 218 placement facts; typestate rules for renameable temporaries; must-go-through _compile_branch",
         "Decides the placement discipline of the statement-lifting transformation for all programs at once: for every compile function, the statements and the value of every sub-form slot reach exactly the reviewed fields of the emitted AST (nothing hoisted out of its branch, swapped, duplicated into another field or lost); ordered bodies go through _compile_branch; only the reviewed sites expose temporaries to setv's rename optimisation; setv evaluates value before target. It decides where code is placed, not the values a concrete program computes.",
@@ -124,7 +154,7 @@ def main():
                     replay_cmd_template=f"/venv/bin/python -m hyverif {pid} --tier quick  # replay file {{path}} names rule+construct",
                     engine="hyverif",
                     level_claimed=dict(category="other", text=text, design_ref=ref),
-                    level_note=note,
+                    level_note=note or "Python's own scoping semantics of the emitted Global/Nonlocal/def statements are trusted.",
                     technique="static analysis: " + tech,
                 )
             )
